@@ -8,9 +8,11 @@ CONSTANTS
   Dev_drop = FALSE
   Dev_cryptv = FALSE
   Dev_mdstr = FALSE
+  Dev_osres = FALSE
+  Dev_cind = FALSE
   Dev_osrep = FALSE
   Dev_dparr = FALSE
-  DocIds = {"D1", "D2", "D3", "D4", "D5", "D6"}
+  DocIds = {"D1", "D2", "D3", "D4", "D5", "D6", "D7"}
   V2Lens = {40, 64, 128}
   V4Stm = {"RC4", "AES128", "Identity"}
   V4Str = {"RC4", "AES128", "Identity"}
